@@ -41,8 +41,8 @@ ASSUMPTIONS = [
     "values are checked on dyadic grid points only: every basis function is a piecewise polynomial of degree <= 5, "
     "so agreement on >= degree+1 points per knot interval pins the piece; intervals with fewer grid points are "
     "checked as a construction (knots, recursion, boundary rules), not pointwise",
-    "where the docstrings are silent (which sample df-quantiles use when training data is out of range; centering "
-    "with out-of-range training rows under 'zero'; knots outside the bounds) the case is counted UNSPECIFIED and skipped",
+    "where the docstrings are silent (the value exactly at the upper bound when a df-quantile knot coincides with it; "
+    "zeros in identically-zero columns of a NaN row) the case is counted UNSPECIFIED and not demanded",
 ]
 
 TOL = 1e-9
@@ -494,18 +494,20 @@ def drv_bs(c, ctx, col):
                           sig="bs-state-knots")
             return
     else:
-        cands = [R.quantiles7(inr, nknots)]
-        if oor:  # docstrings do not say whether out-of-range training values take part in the quantiles
-            cands.append(R.quantiles7(vals, nknots))
-            col.count("unspecified:df-sample-with-out-of-range-training-values")
-        if not any(all(close_knot(a, b, ub - lb) for a, b in zip(rec_inner, cand)) for cand in cands):
-            col.violation(key + " :: state knots", dict(detail, recorded=state["knots"],
-                                                        want_interior=[float(a) for a in cands[0]]), sig="bs-df-knots")
+        # The interior knots are quantiles of the training values INSIDE the bounds: that is what clip / na / zero do,
+        # what R's bs() does (the docstring promises R's behaviour for 'extend'), and the only reading under which the
+        # recorded vector is a knot vector at all (quantiles of out-of-range values can fall outside the bounds).
+        want_inner = R.quantiles7(inr, nknots)
+        if not all(close_knot(a, b, ub - lb) for a, b in zip(rec_inner, want_inner)):
+            from_all = oor and all(close_knot(a, b, ub - lb) for a, b in zip(rec_inner, R.quantiles7(vals, nknots)))
+            col.violation(key + " :: state knots", dict(detail, recorded=state["knots"], want_interior=[float(a) for a in want_inner],
+                                                        monotone=all(b >= a for a, b in zip(rec, rec[1:]))),
+                          sig="bs-df-knots-from-out-of-range-values" if from_all else "bs-df-knots")
             return
     t = tuple(rec)
     if any(b < a for a, b in zip(t, t[1:])):
-        # only reachable through the unspecified sample above (a quantile of out-of-range values outside the bounds)
-        col.count("unspecified:df-knot-outside-bounds")
+        col.violation(key + " :: state knots", dict(detail, recorded=state["knots"], want="a non-decreasing knot vector"),
+                      sig="bs-state-knots")
         return
     col.state((degree, tuple(float(k) for k in t)))
 
@@ -809,21 +811,20 @@ def drv_cubic(c, ctx, col):
 
     # ---- centering: zero column means on the training data <=> (mean of the free training rows) . Q == 0 ---------
     if cons:
-        if extrap == "zero" and oor:
-            col.count("unspecified:centering-with-zeroed-out-of-range-training-rows")
-        else:
-            W, nanrow, _ = cubic_want(t, cyclic, extrap, tuple(x))
-            live = nanrow == 0
-            rows = [cubic_free_row(t, cyclic, extrap, v) for v in x]
-            rows = [r for r in rows if r is not None]
-            cref = [sum(r[i] for r in rows) / len(rows) for i in range(nfree)]
-            resid = np.array([float(a) for a in cref]) @ Q
-            means = M[live].mean(axis=0)
-            if not (np.all(np.abs(resid) <= TOL) and np.all(np.isfinite(means)) and np.all(np.abs(means) <= TOL)):
-                col.violation(key + " :: column means on the training data", dict(detail, column_means=means.tolist(),
-                                                                                 reference_mean_times_Q=resid.tolist()),
-                              sig="cubic-center-nonzero-mean" + small)
-                return
+        # the rows the transform returns for the training data: clipped / continued / wrapped / zeroed ('zero' mode: the
+        # zero rows of out-of-range values are part of the training matrix and count in the column means)
+        W, nanrow, _ = cubic_want(t, cyclic, extrap, tuple(x))
+        live = nanrow == 0
+        rows = [cubic_free_row(t, cyclic, extrap, v) for v in x]
+        rows = [r for r in rows if r is not None]
+        cref = [sum(r[i] for r in rows) / len(rows) for i in range(nfree)]
+        resid = np.array([float(a) for a in cref]) @ Q
+        means = M[live].mean(axis=0)
+        if not (np.all(np.abs(resid) <= TOL) and np.all(np.isfinite(means)) and np.all(np.abs(means) <= TOL)):
+            col.violation(key + " :: column means on the training data", dict(detail, column_means=means.tolist(),
+                                                                             reference_mean_times_Q=resid.tolist()),
+                          sig="cubic-center-nonzero-mean" + ("-zeroed-rows" if (extrap == "zero" and oor) else "") + small)
+            return
 
     # ---- values on the training vector -------------------------------------
     emit(col, key, detail, cubic_rows_findings(M, x, t, cyclic, extrap, Q, "train", small))
